@@ -109,10 +109,10 @@ def run(chk):
     mod = kit.load(MOD)
     g_tof = kit.load('conversion.graph.tof')
     g_bl = kit.load('conversion.graph.beamline')
-    energy_mode(chk, mod)
-    graph_selection(chk, mod, g_tof, g_bl)
-    convert_contract(chk, mod)
-    derivability(chk, mod)
+    chk.section('energy_mode', energy_mode, mod)
+    chk.section('graph_selection', graph_selection, mod, g_tof, g_bl)
+    chk.section('convert_contract', convert_contract, mod)
+    chk.section('derivability', derivability, mod)
     bounded_real(chk)
 
 
